@@ -2,6 +2,7 @@
 // files, replay input, aggregated statistics.  One seed = one exactly repeatable run.
 #pragma once
 #include <fcntl.h>
+#include <malloc.h>
 #include <signal.h>
 #include <sys/personality.h>
 #include <unistd.h>
@@ -163,16 +164,47 @@ inline void install_handlers() {
 }
 // fixed addresses: nothing address-dependent may differ between a run and its replay
 inline void no_aslr(char** argv) {
+  // one malloc arena, no mmap/munmap/trim per allocation: deterministic addresses, and munmap is what
+  // serialises many concurrent driver processes in this VM (measured 1.1 ms per call under load)
+  mallopt(M_ARENA_MAX, 1);
+  mallopt(M_MMAP_THRESHOLD, 1 << 30);
+  mallopt(M_TRIM_THRESHOLD, 1 << 30);
+  mallopt(M_TOP_PAD, 64 << 20);
   int p = personality(0xffffffff);
   if (p != -1 && !(p & ADDR_NO_RANDOMIZE)) {
     if (personality(p | ADDR_NO_RANDOMIZE) != -1 && !getenv("VSIM_NOREEXEC")) { setenv("VSIM_NOREEXEC", "1", 1); execv("/proc/self/exe", argv); }
   }
 }
 
+// ------------------------------------------------------------------ caching allocator for mju_malloc
+// Blocks are never returned to the C library: large mmap/munmap (and, under TSan, the shadow reset that
+// goes with them) per mj_makeData/mj_deleteData made 16 concurrent driver processes ~18x slower.
+struct CacheAlloc {
+  struct Hdr { size_t sz; Hdr* next; char pad[48]; };
+  static_assert(sizeof(Hdr) == 64);
+  static inline Hdr* bins[64];
+  static int bin(size_t n) { int b = 0; size_t c = 64; while (c < n) { c <<= 1; b++; } return b; }
+  static void* alloc(size_t n) {
+    int b = bin(n ? n : 1);
+    Hdr* h = bins[b];
+    if (h) bins[b] = h->next;
+    else { h = (Hdr*)aligned_alloc(64, sizeof(Hdr) + ((size_t)64 << b)); if (!h) return nullptr; }
+    h->sz = n; h->next = nullptr;
+    return (char*)h + sizeof(Hdr);
+  }
+  static void release(void* p) {
+    if (!p) return;
+    Hdr* h = (Hdr*)((char*)p - sizeof(Hdr));
+    int b = bin(h->sz ? h->sz : 1);
+    h->next = bins[b]; bins[b] = h;
+  }
+};
+inline void use_caching_alloc() { mju_user_malloc = CacheAlloc::alloc; mju_user_free = CacheAlloc::release; }
+
 // ------------------------------------------------------------------ aggregated statistics
 struct Agg {
   uint64_t runs = 0, points = 0, opportunities = 0, switches = 0, preempt_bb = 0, preempt_ls = 0, parks = 0, unpark_rounds = 0,
-           blocks = 0, spurious = 0, max_runnable = 0, max_threads = 0, sim_ns = 0;
+           blocks = 0, spurious = 0, max_runnable = 0, max_threads = 0, sim_ns = 0, max_opportunities = 0;
   uint64_t kind[vsim::K_NKINDS] = {0};
   uint64_t policy[vsim::P_NPOLICY] = {0};
   std::set<uint64_t> hashes;          // distinct traces of NON-TRIVIAL runs: >=2 threads runnable at once and >=1 switch
@@ -184,6 +216,7 @@ struct Agg {
     preempt_ls += s.preempt_ls; parks += s.parks; unpark_rounds += s.unpark_rounds; blocks += s.blocks; spurious += s.spurious;
     sim_ns += s.sim_ns;
     if (s.max_runnable > max_runnable) max_runnable = s.max_runnable;
+    if (s.opportunities > max_opportunities) max_opportunities = s.opportunities;
     if (s.threads > max_threads) max_threads = s.threads;
     for (int i = 0; i < vsim::K_NKINDS; i++) kind[i] += s.kind_count[i];
     policy[c.policy % vsim::P_NPOLICY]++;
@@ -194,9 +227,9 @@ struct Agg {
     fprintf(f, "SUMMARY {\"runs\":%" PRIu64 ",\"points\":%" PRIu64 ",\"opportunities\":%" PRIu64 ",\"switches\":%" PRIu64
                ",\"preempt_bb\":%" PRIu64 ",\"preempt_ls\":%" PRIu64 ",\"parks\":%" PRIu64 ",\"unpark_rounds\":%" PRIu64
                ",\"blocks\":%" PRIu64 ",\"spurious\":%" PRIu64 ",\"max_runnable\":%" PRIu64 ",\"max_threads\":%" PRIu64
-               ",\"sim_ns\":%" PRIu64 ",\"distinct_traces\":%zu,\"nontrivial_runs\":%" PRIu64 ",\"digest\":\"%016" PRIx64 "\"",
+               ",\"max_opportunities\":%" PRIu64 ",\"sim_ns\":%" PRIu64 ",\"distinct_traces\":%zu,\"nontrivial_runs\":%" PRIu64 ",\"digest\":\"%016" PRIx64 "\"",
             runs, points, opportunities, switches, preempt_bb, preempt_ls, parks, unpark_rounds, blocks, spurious, max_runnable,
-            max_threads, sim_ns, hashes.size(), nontrivial, hash_of_hashes);
+            max_threads, max_opportunities, sim_ns, hashes.size(), nontrivial, hash_of_hashes);
     auto hf = g_args.opt.find("hashfile");
     if (hf != g_args.opt.end()) {
       FILE* h = fopen((hf->second + std::to_string(g_args.seed0)).c_str(), "wb");
@@ -241,7 +274,6 @@ inline void run_end() {
 
 extern "C" void vsim_fail_hook(const char* cls, const char* msg) { sd::write_fail_file(cls, msg); }
 // TSan-in-the-loop: any report is a violation of the run in progress
-extern "C" __attribute__((no_sanitize("thread"), no_sanitize("coverage"))) void __tsan_on_report(void*) {
-  if (sd::g_in_run) { sd::write_fail_file("race", "ThreadSanitizer reported a data race (see stderr of this run)"); _exit(10); }
-}
+// (the hook runs inside TSan's report machinery: no library calls here, just raise the flag)
+extern "C" __attribute__((no_sanitize("thread"), no_sanitize("coverage"))) void __tsan_on_report(void*) { vsim_race_flag = 1; }
 extern "C" __attribute__((no_sanitize("thread"), no_sanitize("coverage"))) const char* __tsan_default_options() { return "report_signal_unsafe=0:exitcode=66:second_deadlock_stack=1:history_size=4"; }
